@@ -9,23 +9,23 @@ func init() {
 // TestOplErrKinds pins the message classifier on one message per format.
 func TestOplErrKinds(t *testing.T) {
 	for msg, want := range map[string]string{
-		`fatal: at "": unclosed comment`:                                 "fatal-unclosed-comment",
-		`fatal: at "": unclosed string literal`:                          "fatal-unclosed-string",
-		`fatal: at "#x": unexpected token #`:                             "fatal-unexpected-token",
-		`fatal: broken state`:                                            "fatal-broken-state",
-		`expected "{", got "x"`:                                          "expected-token",
-		`expected identifier, got EOF`:                                   "expected-identifier",
-		`expected identifier or '}', got EOF ""`:                         "expected-identifier-or-brace",
-		`expected 'permits' or 'related', got "x"`:                       "expected-permits-or-related",
-		`expected 'related' or 'permits', got "x"`:                       "expected-related-or-permits",
-		`expected 'traverse' or 'includes', got "x"`:                     "expected-traverse-or-includes",
-		`expected '|', got "x"`:                                          "expected-union",
-		`expression nested too deeply; maximal nesting depth is 10`:      "nested-too-deeply",
-		`did not expect another expression`:                              "unexpected-expression",
-		`namespace "a\" was not declared" was not declared`:              "ns-not-declared",
-		`namespace "a" did not declare relation "b"`:                     "ns-no-relation",
-		`could not typecheck deeply nested SubjectSet further`:           "tc-too-deep",
-		`relation "a" was not declared in namespace "b"`:                 "rel-not-declared",
+		`fatal: at "": unclosed comment`:                            "fatal-unclosed-comment",
+		`fatal: at "": unclosed string literal`:                     "fatal-unclosed-string",
+		`fatal: at "#x": unexpected token #`:                        "fatal-unexpected-token",
+		`fatal: broken state`:                                       "fatal-broken-state",
+		`expected "{", got "x"`:                                     "expected-token",
+		`expected identifier, got EOF`:                              "expected-identifier",
+		`expected identifier or '}', got EOF ""`:                    "expected-identifier-or-brace",
+		`expected 'permits' or 'related', got "x"`:                  "expected-permits-or-related",
+		`expected 'related' or 'permits', got "x"`:                  "expected-related-or-permits",
+		`expected 'traverse' or 'includes', got "x"`:                "expected-traverse-or-includes",
+		`expected '|', got "x"`:                                     "expected-union",
+		`expression nested too deeply; maximal nesting depth is 10`: "nested-too-deeply",
+		`did not expect another expression`:                         "unexpected-expression",
+		`namespace "a\" was not declared" was not declared`:         "ns-not-declared",
+		`namespace "a" did not declare relation "b"`:                "ns-no-relation",
+		`could not typecheck deeply nested SubjectSet further`:      "tc-too-deep",
+		`relation "a" was not declared in namespace "b"`:            "rel-not-declared",
 	} {
 		if got := oplErrKind(msg); got != want {
 			t.Errorf("%q: got %s want %s", msg, got, want)
